@@ -445,6 +445,10 @@ class Circuit:
         for n in unused:  # prune logic of unconnected outputs only after all connected outputs are attached
             if n.circuit is not None:
                 self.remove_dangling_nodes(n)
+        for n in node_map.values():  # a copied fork that lost the branch to an unconnected output must not keep a gap
+            if n.circuit is not None and n.kind == '__fork__' and any(l is None for l in n.outs):
+                n.outs = GrowingList(l for l in n.outs if l is not None)
+                for i, l in enumerate(n.outs): l.driver_pin = i
 
     def resolve_tlib_cells(self, tlib):
         """Substitute all technology library cells with kyupy native simulation primitives.
